@@ -18,7 +18,9 @@ EXTENDS Naturals, Sequences, FiniteSets, TLC, Json
 
 Presence == {"required", "defaulted"}
 AttrDecl == [presence : Presence, typed : BOOLEAN]
-AttrCase == {"absent", "literal", "illtyped", "propref", "propmissing", "propill"}
+AttrCase == {"absent", "literal", "illtyped", "propref", "propmissing", "propill",
+             "propsubtree",   \* ${key} where key only is the prefix of other keys (a sub-tree, not a property)
+             "propspecial"}   \* ${key} where the property's text is [] or {} or <nil> (stored apart by the flattened map)
 Spelling == {"camel", "kebab", "snake", "capital"}
 Form     == {"flat", "expr"}
 
@@ -29,6 +31,8 @@ Resolve(d, c) ==
     [] c = "illtyped"    -> IF d.typed THEN "error" ELSE "configured"
     [] c = "propref"     -> "property"            \* ${key}: the top-level property of that name
     [] c = "propmissing" -> "error"
+    [] c = "propsubtree" -> "error"               \* absent as a property
+    [] c = "propspecial" -> IF d.typed THEN "error" ELSE "property"
     [] OTHER             -> IF d.typed THEN "error" ELSE "property"     \* "propill"
 
 ElemDecl == {"single-default", "single-optional", "list-required", "list-default"}
